@@ -21,6 +21,18 @@ type Ob struct {
 	OK     bool   `json:"ok"`
 	Detail string `json:"detail,omitempty"`
 	Kind   string `json:"kind,omitempty"` // "", "undecided", "vacuous", "unresolved-role", "exception"
+	// Tags name the clause / role the obligation belongs to; a property may claim a rule restricted to a tag.
+	Tags []string `json:"tags,omitempty"`
+}
+
+// HasTag reports whether the obligation carries the tag.
+func (o Ob) HasTag(t string) bool {
+	for _, x := range o.Tags {
+		if x == t {
+			return true
+		}
+	}
+	return false
 }
 
 // Ctx collects the obligations of one run.
@@ -31,7 +43,19 @@ type Ctx struct {
 	Stats map[string]int
 	memo  map[string]any
 	cur   string // rule being run
+	tags  []string
 }
+
+// Tagged runs f with the given tags attached to every obligation it records.
+func (c *Ctx) Tagged(tags []string, f func()) {
+	saved := c.tags
+	c.tags = append(append([]string{}, saved...), tags...)
+	f()
+	c.tags = saved
+}
+
+// SetTags replaces the current tags (until the next SetTags / end of rule).
+func (c *Ctx) SetTags(tags ...string) { c.tags = tags }
 
 func NewCtx(p *Prog) *Ctx {
 	return &Ctx{P: p, Stats: map[string]int{}, memo: map[string]any{}}
@@ -47,10 +71,10 @@ func Memo[T any](c *Ctx, name string, f func() T) T {
 	return v
 }
 
-func (c *Ctx) SetRule(id string) { c.cur = id }
+func (c *Ctx) SetRule(id string) { c.cur = id; c.tags = nil }
 
 func (c *Ctx) add(ok bool, kind, key string, pos token.Pos, format string, args ...any) {
-	c.Obs = append(c.Obs, Ob{Rule: c.cur, Key: key, Pos: c.P.Pos(pos), OK: ok, Kind: kind, Detail: fmt.Sprintf(format, args...)})
+	c.Obs = append(c.Obs, Ob{Rule: c.cur, Key: key, Pos: c.P.Pos(pos), OK: ok, Kind: kind, Detail: fmt.Sprintf(format, args...), Tags: append([]string(nil), c.tags...)})
 }
 
 // Pass records a discharged obligation.
